@@ -49,6 +49,8 @@ static int stepMode() {
     if (line.find_first_not_of(" \t\r\n") == std::string::npos) continue;
     std::istringstream ls(line);
     unsigned long long pc, a, b, o; size_t nc;
+    size_t nsteps = 1;
+    if (line[0] == 'k') { char kc; ls >> kc >> nsteps; }
     ls >> pc >> a >> b >> o >> nc;
     std::vector<std::pair<uint32_t, uint32_t>> cells(nc);
     for (auto &c : cells) { unsigned long long ad, v; ls >> ad >> v; c = {(uint32_t)ad, (uint32_t)v}; }
@@ -73,8 +75,8 @@ static int stepMode() {
       for (auto &c : cells) { mem[c.first] = c.second; shadow[c.first] = c.second; }
       p->verifPc() = (uint32_t)pc; p->verifAreg() = (uint32_t)a; p->verifBreg() = (uint32_t)b; p->verifOreg() = (uint32_t)o;
       p->verifExitCode() = 0;
-      bool stepped = false;
-      p->verifObserver = [&](Processor &) { stepped = true; return false; };
+      size_t done = 0;
+      p->verifObserver = [&](Processor &) { done++; return done < nsteps; };
       bool threw = false;
       try { p->run(); } catch (const std::exception &e) { threw = true; }
       if (threw) {
